@@ -165,7 +165,7 @@ def run_wrappers(res, layouts, rng, tier):
                         sc = [3, -2, 2.5, -0.75][int(rng.integers(4))] if name != 'div_s' else [4, 0.5, -2.0][int(rng.integers(3))]
                         args = (A, sc)
                     elif kind == 'g':
-                        args = (A, int(rng.integers(0, n + 1 if name != 'pow_rt' else 4)))
+                        args = (A, int(rng.integers(0, n + 1)) if name != 'pow_rt' else int(rng.choice([0, 1, 2, 3, 5, 6])))
                     elif kind == 'gg':
                         g = int(rng.integers(0, n + 1))
                         h = int(rng.integers(0, n + 1))
